@@ -6,7 +6,11 @@ use vaporetto_rules::{
     SentenceFilter,
 };
 
-const TEXTS: &[&str] = &["12a34あ5", "ab12cd", "アイ1ウ漢字", "1\r\n2\n3\r4", "a\u{1f468}\u{200d}\u{1f469}b\u{1f44f}\u{1f3fd}", "\n", "x"];
+const TEXTS: &[&str] = &["12a34あ5", "ab12cd", "アイ1ウ漢字", "1\r\n2\n3\r4", "a\u{1f468}\u{200d}\u{1f469}b\u{1f44f}\u{1f3fd}", "\n", "x",
+    "前の行\n", "a\r\n", "\ra", "行\nx", "Vaporetto", "2021", "a\u{915}\u{93e}", "\u{e01}\u{e33}だ", "\u{600}12", "e\u{301}x", "\u{1f1ef}\u{1f1f5}a"];
+// known answers for extended grapheme clusters (UAX #29): (text, boundary index that lies INSIDE a cluster)
+const INSIDE_CLUSTER: &[(&str, usize)] = &[("a\u{915}\u{93e}", 1), ("\u{e01}\u{e33}だ", 0), ("\u{600}12", 0), ("e\u{301}x", 0), ("\u{1f1ef}\u{1f1f5}a", 0),
+    ("a\u{1f468}\u{200d}\u{1f469}b\u{1f44f}\u{1f3fd}", 1), ("a\u{1f468}\u{200d}\u{1f469}b\u{1f44f}\u{1f3fd}", 2), ("a\u{1f468}\u{200d}\u{1f469}b\u{1f44f}\u{1f3fd}", 5)];
 const TYPES: [CharacterType; 6] = [
     CharacterType::Digit, CharacterType::Roman, CharacterType::Hiragana,
     CharacterType::Katakana, CharacterType::Kanji, CharacterType::Other,
@@ -50,8 +54,15 @@ fn check(filter_id: usize, text: &str, labels: &[B]) -> Option<String> {
                     if nl(chars[i]) || nl(chars[i + 1]) { B::WordBoundary } else { labels[i] }
                 }
                 _ => {
-                    // grapheme filter: may only clear
+                    // grapheme filter: may only clear; boundaries known to lie inside an extended cluster must be cleared;
+                    // boundaries between two ASCII letters/digits are never inside a cluster
                     if after[i] != labels[i] && after[i] != B::NotWordBoundary { return Some(format!("boundary {i} set to something other than NotWordBoundary")); }
+                    if INSIDE_CLUSTER.iter().any(|(t, k)| *t == text && *k == i) && after[i] != B::NotWordBoundary {
+                        return Some(format!("boundary {i} lies inside an extended grapheme cluster but was not cleared"));
+                    }
+                    if chars[i].is_ascii_alphanumeric() && chars[i + 1].is_ascii_alphanumeric() && after[i] != labels[i] {
+                        return Some(format!("boundary {i} between two ASCII alphanumerics was changed"));
+                    }
                     after[i]
                 }
             };
@@ -81,6 +92,7 @@ pub fn search() -> Option<String> {
             let mut labels = lab(code, k.min(7));
             labels.resize(k, B::Unknown);
             for f in 0..8 {
+                crate::mark(&format!("{}\t{}\t{}", f, text, lstr(&labels)));
                 if let Some(d) = check(f, text, &labels) {
                     return Some(d);
                 }
